@@ -5,30 +5,46 @@ mod verif_kani {
     use super::*;
     use crate::observations::verif_kani::{any_local, any_magnitudes, any_sync, dirty_ok, fully_equal, mirror_inv};
 
-    const N: usize = 2;
+    const N: usize = 1;
 
     /// push(): under the pair invariant
     ///   mirror_inv  /\  (local.count == last_pushed_count  ==>  global == local)
-    /// the published bag equals the local bag afterwards, whether or not the pair was skipped.
+    /// EVERY registered pair's published bag equals its local bag afterwards, whether or not an individual pair was
+    /// skipped - in particular an idle pair earlier in the registry does not hide a later one.
     /// The second conjunct is the documented wrap-around caveat made explicit (it can only break after 2^64
     /// observations between two pushes).
     #[kani::proof]
     #[kani::unwind(22)]
     fn push_contract() {
         let mags = any_magnitudes::<N>();
-        let local = Rc::new(any_local::<N>(mags));
-        let global = Arc::new(any_sync::<N>(mags));
-        let last: u64 = kani::any();
-        kani::assume(mirror_inv::<N>(&local, &global) && dirty_ok::<N>(&local));
-        kani::assume(local.count() != last || fully_equal::<N>(&local, &global));
         let pusher = MetricsPusher::new();
-        pusher.push_registry.borrow_mut().push(LocalGlobalPair { local: Rc::clone(&local), global: Arc::clone(&global), last_pushed_count: Cell::new(last) });
+        let mut locals: Vec<Rc<ObservationBag>> = Vec::new();
+        let mut globals: Vec<Arc<ObservationBagSync>> = Vec::new();
+        let mut k = 0;
+        while k < 2 {
+            let local = Rc::new(any_local::<N>(mags));
+            let global = Arc::new(any_sync::<N>(mags));
+            let last: u64 = kani::any();
+            kani::assume(mirror_inv::<N>(&local, &global) && dirty_ok::<N>(&local));
+            kani::assume(local.count() != last || fully_equal::<N>(&local, &global));
+            pusher.push_registry.borrow_mut().push(LocalGlobalPair { local: Rc::clone(&local), global: Arc::clone(&global), last_pushed_count: Cell::new(last) });
+            locals.push(local);
+            globals.push(global);
+            k += 1;
+        }
+        let first_idle = locals[0].count() == pusher.push_registry.borrow()[0].last_pushed_count.get();
+        let second_idle = locals[1].count() == pusher.push_registry.borrow()[1].last_pushed_count.get();
         pusher.push();
-        assert!(fully_equal::<N>(&local, &global), "C16.push_publishes_everything_observed_so_far");
-        assert!(pusher.push_registry.borrow()[0].last_pushed_count.get() == local.count(), "C16.push_records_pushed_count");
-        assert!(mirror_inv::<N>(&local, &global), "C16.push_preserves_mirror_invariant");
-        kani::cover!(local.count() == last);
-        kani::cover!(local.count() != last);
+        let mut k = 0;
+        while k < 2 {
+            assert!(fully_equal::<N>(&locals[k], &globals[k]), "C16.push_publishes_everything_observed_so_far (every registered event)");
+            assert!(pusher.push_registry.borrow()[k].last_pushed_count.get() == locals[k].count(), "C16.push_records_pushed_count");
+            assert!(mirror_inv::<N>(&locals[k], &globals[k]), "C16.push_preserves_mirror_invariant");
+            k += 1;
+        }
+        kani::cover!(first_idle && !second_idle);
+        kani::cover!(!first_idle && second_idle);
+        kani::cover!(!first_idle && !second_idle);
         core::mem::forget(pusher);
     }
 }
